@@ -494,9 +494,12 @@ func strLen(s *StrVal) *Term {
 	return s.n
 }
 
-func (e *Engine) opaqueStr(hint string) *StrVal {
+// opaqueStr: the result of a stubbed formatting call: arbitrary bytes, length 0..4096 (stated stub
+// contract: formatted messages are short).
+func (e *Engine) opaqueStr(st *State, hint string) *StrVal {
 	e.nondetSeq++
 	n := Var(fmt.Sprintf("oslen%d", e.nondetSeq), 64)
+	st.assume(And(Sle(c64(0), n), Sle(n, c64(4096))))
 	return &StrVal{mem: newBaseMem("ostr_" + hint), off: c64(0), n: n}
 }
 
